@@ -7,7 +7,7 @@ env = dict(os.environ); env["GOFLAGS"] = "-mod=mod"; env["GOPROXY"] = "off"
 base = set(json.load(open("/root/.vp/BASELINE.json"))["stable_pass"])
 passed = set(); failed = set()
 def run(mod, pkgs, extra=()):
-    p = subprocess.run(["go", "test", "-json", "-vet=off", "-count=1", "-timeout", "25m", *extra, *pkgs], cwd=os.path.join("/repo", mod), env=env, capture_output=True, text=True)
+    p = subprocess.run(["go", "test", "-json", "-vet=off", "-count=1", "-timeout", "25m", *extra, *pkgs], cwd=os.path.join(os.environ.get("VERIF_REPO", "/repo"), mod), env=env, capture_output=True, text=True)
     for line in p.stdout.split("\n"):
         if not line.startswith("{"): continue
         try: e = json.loads(line)
